@@ -4,6 +4,7 @@ from spec import enc
 from spec import dwarf_forms as F
 from spec import registry as REG
 from harness.dwarfkit import mk_dwarfinfo, unit_header, abbrev_table, _uleb
+from harness import c13 as C13
 
 PROPERTY = 'C04'
 ASSUMPTIONS = [
@@ -693,6 +694,9 @@ HARNESSES = [
                                         [dict(env=e, form=f, warm=w, tu=True) for e in (dict(version=4, fmt64=False, little=True, addr=8), dict(version=4, fmt64=True, little=False, addr=4))
                                          for f in (0x11, 0x12, 0x13, 0x14, 0x15) for w in (False, True)], expect=('ok',),
       desc='get_DIE_from_attribute for ref1/2/4/8/udata (unit relative) and ref_addr (section relative, across two units, DWARF 2 width) with a symbolic target'),
+    H('h4_6_ref_unit_lookup', C13.h_cu_lookup, lambda tier: [c for c in C13._lookup_instances(tier) if c['op'] == 'containing' and len(c['warm']) in (0, 2)], expect=('ok', 'outside'),
+      desc='the unit that a section-relative reference (DW_FORM_ref_addr, an offset taken from another table) falls in, for every prior state of the unit cache - '
+           'sparse ones included: units 0 and 2 known, the reference points into unit 1 (harness shared with C13)'),
     H('h4_6_ref_sig8', h_ref_sig8, lambda tier: [dict(little=l, sigs=s) for l in (True, False) for s in ([1, 2], [0xfedcba9876543210, 0x8000000000000000], [0, 0xffffffffffffffff])], expect=('ok',),
       desc='DW_FORM_ref_sig8 through two v4 type units with signatures at the 64-bit boundaries and a symbolic choice of target'),
 ]
